@@ -604,9 +604,10 @@ func (e *e2eEnv) run(c e2eCase) {
 				r.Count("file+subnet+exclude")
 			}
 		}
-		if c.listen && ci%3 == 0 {
-			args = append(args, "-w", "1") // a single worker probes them all
-			r.Count("workers:1")
+
+		if c.listen && ci%3 != 1 {
+			args = append(args, "-w", []string{"1", "2"}[ci%2]) // one or two workers probe them all
+			r.Count("workers:1-2")
 		}
 		if c.ports != "-" {
 			all := strings.Split(c.ports, ",")
